@@ -23,20 +23,22 @@ Proof.
 Qed.
 Print Assumptions C03_redeem_requires_matching_verifier.
 
-(* the method is fixed at authorization time: the record written there carries the request's challenge and method *)
+(* the method is fixed at authorization time, for the code flow and for the hybrid flow (where the code is the second
+   credential of the response): the record written there carries the request's challenge and method *)
 Theorem C03_challenge_and_method_fixed_at_authorization :
   forall cfg s a,
-  az_rtype a = RCode -> o_err (snd (authorize cfg s a)) = "" ->
-  exists cl, clients s (az_client a) = Some cl /\
+  az_rtype a <> RToken -> o_err (snd (authorize cfg s a)) = "" ->
+  exists cl, clients s (az_client a) = Some cl /\ pkce_validate cfg (az_challenge a) (az_method a) cl = None /\
   let s' := fst (authorize cfg s a) in
-  exists k, nth_error (log s') (List.length (log s)) = Some {| i_kind := KCode; i_key := k; i_rid := next_rid s; i_endpoint_token := false |} /\
+  exists k, nth_error (log s') (List.length (log s) + code_pos a) = Some {| i_kind := KCode; i_key := k; i_rid := next_rid s; i_endpoint_token := false |} /\
     (az_challenge a = "" /\ az_method a = "" -> pkce (st s') k = pkce (st s) k) /\
     (~ (az_challenge a = "" /\ az_method a = "") ->
        exists pr, pkce (st s') k = Some pr /\ r_challenge pr = az_challenge a /\ r_method pr = az_method a /\ r_cl pr = cl).
-Proof. exact authorize_stores_challenge. Qed.
+Proof. exact authorize_code_stores_challenge. Qed.
 Print Assumptions C03_challenge_and_method_fixed_at_authorization.
 
-(* enforcement and "plain only if enabled", at the authorization endpoint and again at the token endpoint *)
+(* enforcement and "plain only if enabled", at the authorization endpoint (code flow; the hybrid flow's gate is part of
+   the statement above) and again at the token endpoint *)
 Theorem C03_authorization_gate :
   forall cfg s a, az_rtype a = RCode -> o_err (snd (authorize cfg s a)) = "" ->
   exists cl, clients s (az_client a) = Some cl /\ pkce_validate cfg (az_challenge a) (az_method a) cl = None.
@@ -64,9 +66,9 @@ Print Assumptions C03_no_pkce_only_when_not_enforced.
 Theorem C03_binding_holds_after_any_history :
   forall cfg cls h1 a h2 auth redirect v vh tampered,
   let s1 := run cfg (state0 cls) h1 in
-  az_rtype a = RCode -> o_err (snd (authorize cfg s1 a)) = "" -> az_challenge a <> "" ->
+  az_rtype a <> RToken -> o_err (snd (authorize cfg s1 a)) = "" -> az_challenge a <> "" ->
   let s2 := run cfg (fst (authorize cfg s1 a)) h2 in
-  let code := {| p_ref := CRef (List.length (log s1)); p_tampered := tampered |} in
+  let code := {| p_ref := CRef (List.length (log s1) + code_pos a); p_tampered := tampered |} in
   o_err (snd (redeem cfg s2 auth code redirect v vh)) = "" ->
   verifier_well_formed v /\
   (if String.eqb (az_method a) "S256" then vh = az_challenge a else v = az_challenge a) /\
